@@ -45,6 +45,8 @@ def effect_of(e):
         return '%s %s %s' % (S.show(e.lhs), e.extra, S.show(e.term[3]))
     if e.kind == 'macro':
         return S.show(e.term)
+    if e.kind == 'snapshot':
+        return 'let %s = %s' % (S.show(e.lhs), S.show(e.term))
     return None
 
 
